@@ -85,7 +85,21 @@ def run(ctx):
     if multi:
         scalar = bool(H.draw(2))  # `minimize` given as one bool for all objectives (resolved lazily at the first evaluation)
         mins = [minimize, minimize] if scalar else [minimize, not minimize]
-        problem = MultiObjectiveProblem(minimize if scalar else mins, lambda p: [returned(value(p.v)), returned(value(p.v + 1))])
+        form = H.pick(["list", "list", "tuple", "generator", "map", "iter"])  # any iterable of numbers is a legal return value
+
+        def ff_mo(p):
+            comps = [returned(value(p.v)), returned(value(p.v + 1))]
+            if form == "tuple":
+                return tuple(comps)
+            if form == "generator":
+                return (c for c in comps)
+            if form == "map":
+                return map(lambda c: c, comps)
+            if form == "iter":
+                return iter(comps)
+            return comps
+
+        problem = MultiObjectiveProblem(minimize if scalar else mins, ff_mo)
 
         def agg(g):
             c = [value(g), value(g + 1)]
